@@ -11,6 +11,11 @@ import Solvor.Pack.Model
           [chkSel@capFeas, chkKnapsack@capFeas, selWeight, selValue] | null,  -- verified checkers on the implementation's answer
           [dpSel, dpValue] | null]`                      -- proved DP (ratOps) when weights/capacity are integers
 
+`["fallback", wR, vR, capFeas, wBits, vBits, capBits, vIsInt, minimize, implSel|null]`  (`_greedy_fallback` directly)
+  reply `[sel, objectiveBits, [chkSel@capFeas, selWeight, selValue]|null]`
+`["intcap", wBits, capBits]`  (`_to_int_capacity`, then `_scaled(w, scale)` per weight)
+  reply `[intCapacity, scaleBits, [[int, exact] per weight]]`
+
 `["pack", sR, [capStrict, capFeas], sBits, capBits, algorithm, implAsg|null, implK|null, readings]`
   readings : list of `[cap, sizes]` (exact rationals) for which the optimum is wanted (strict /
              tolerant / shrunk capacity, see ASSUMPTIONS of the check); may be empty
@@ -57,6 +62,26 @@ def handleKnap (wR vR : List Rat) (caps : List Rat) (wB vB : List Nat) (capB : N
         Val.bool r.lossless, Val.int r.intCap]
   Val.arr (head ++ [Val.ofOpt Val.ofRat bestO, Val.ofOpt Val.ofRat bestS, chk, dp])
 
+/-- `_greedy_fallback(values, weights, capacity, minimize)` called directly -/
+def handleFallback (wR vR : List Rat) (capF : Rat) (wB vB : List Nat) (capB : Nat) (vI : List Bool) (minimize : Bool)
+    (implSel : Option (List Nat)) : Val :=
+  let ws := wB.map fOfBits
+  let vs := vB.map fOfBits
+  let sel := greedyFallback floatOps (ws.zip vs) (fOfBits capB) minimize
+  let obj := sumAt floatOps (vs.zip (vI ++ List.replicate vs.length false)) sel
+  let items := wR.zip vR
+  let chk : Val := match implSel with
+    | some s => Val.arr [Val.bool (chkSel items capF s), Val.ofRat (selW items s), Val.ofRat (selV items s)]
+    | none => Val.null
+  Val.arr [Val.ofNats sel, Val.int obj.toBits.toNat, chk]
+
+/-- `_to_int_capacity(capacity, weights)` and `_scaled(w, scale)` for every weight -/
+def handleIntCap (wB : List Nat) (capB : Nat) : Val :=
+  let ws := wB.map fOfBits
+  let ic := toIntCapacity floatOps floatConsts (fOfBits capB) ws
+  Val.arr [Val.int ic.1, Val.int ic.2.toBits.toNat,
+    Val.arr (ws.map fun w => let r := scaled floatOps floatConsts w ic.2; Val.arr [Val.int r.1, Val.bool r.2])]
+
 def packVal : Except String PackRes → List Val
   | .error e => [Val.str e, Val.arr [], Val.int 0]
   | .ok r => [Val.str r.status.name, Val.ofNats r.asg, Val.int r.k]
@@ -94,6 +119,16 @@ def handle (line : String) : String :=
     | some wR, some vR, some caps, some wB, some vB, some capB, some wI, some vI, some mn, some isel, some iobj =>
       (handleKnap wR vR caps wB vB capB wI vI mn isel iobj).render
     | _, _, _, _, _, _, _, _, _, _, _ => err "bad arguments"
+  | some ("fallback", [wR, vR, capF, wB, vB, capB, vI, mn, isel]) =>
+    match wR.toRats?, vR.toRats?, capF.toRat?, wB.toNats?, vB.toNats?, capB.toNat?, toBools? vI, mn.toBool?,
+          isel.toOpt? Val.toNats? with
+    | some wR, some vR, some capF, some wB, some vB, some capB, some vI, some mn, some isel =>
+      (handleFallback wR vR capF wB vB capB vI mn isel).render
+    | _, _, _, _, _, _, _, _, _ => err "bad arguments"
+  | some ("intcap", [wB, capB]) =>
+    match wB.toNats?, capB.toNat? with
+    | some wB, some capB => (handleIntCap wB capB).render
+    | _, _ => err "bad arguments"
   | some ("pack", [sR, caps, sB, capB, algo, iasg, ik, wo]) =>
     match sR.toRats?, caps.toRats?, sB.toNats?, capB.toNat?, algo.toStr?,
           iasg.toOpt? Val.toNats?, ik.toOpt? Val.toNat?, readings? wo with
